@@ -4,7 +4,7 @@
    there is no transaction id and these statements do not apply).  `cfg` (queue capacity, timer
    resolution) and the initial parameters are arbitrary; `es` ranges over ALL event lists. *)
 From Coq Require Import NArith List.
-From Rodbus Require Import Model.Retry Spec.Lifecycle Spec.ClientSpec Gen.SessionErrors Model.ClientTask Proofs.ClientBase Proofs.C11Proofs.
+From Rodbus Require Import Model.Retry Spec.Lifecycle Spec.ClientSpec Gen.SessionErrors Model.ClientTask Proofs.ClientBase Proofs.C11Proofs Proofs.C10Proofs.
 Import ListNotations.
 Local Open Scope N_scope.
 
@@ -69,6 +69,16 @@ Theorem C11_idle_drop : forall cfg s tx k, ph s = PIdle ->
   (forall p, partial s = Some p -> step cfg s EvTail = (set_partial s None, [])).
 Proof. exact c11_idle_drop. Qed.
 Print Assumptions C11_idle_drop.
+
+(* no cross-talk: a reply result (success, exception, bad reply) is only ever produced by the frame
+   that carries the outstanding transaction id, and only for the outstanding request; a stale,
+   duplicate, future or unsolicited frame never becomes the result of any request *)
+Theorem C11_no_crosstalk : forall cfg s e id res, In (OComplete id res) (snd (step cfg s e)) ->
+  res = ROk \/ res = RErr ReException \/ res = RErr ReBadResponse ->
+  exists r tx d k, ph s = PInFlight r tx d /\ rq_id r = id /\ res = respond k /\
+    ((e = EvFrame tx k /\ partial s = None) \/ (e = EvTail /\ partial s = Some (tx, k))).
+Proof. exact no_crosstalk. Qed.
+Print Assumptions C11_no_crosstalk.
 
 (* non-vacuity: a run that crosses a mismatching (stale) frame and then takes the genuine one *)
 Example C11_nonvacuous :
